@@ -73,7 +73,8 @@ def _rates(ctx):
 
 
 def _dts(ctx):
-    return [1e-3, 2e-3, 1e-2, 2e-2, 5e-2] if ctx.thorough else [1e-3, 1e-2, 5e-2]
+    # (steps that are not a whole number of microseconds / of any decimal grid are steps too: 1/300 s, 0.0123456789 s, 1/30 s)
+    return [1e-3, 2e-3, 1.0 / 300.0, 1e-2, 0.0123456789, 2e-2, 1.0 / 30.0, 5e-2] if ctx.thorough else [1e-3, 1.0 / 300.0, 1e-2, 0.0123456789, 5e-2]
 
 
 def _nmax(ctx):
@@ -283,6 +284,7 @@ def job_dr(ctx, iq, ia):
     Z = np.zeros(3)
     conj = lambda q: q * np.array([1.0, -1.0, -1.0, -1.0])
     madg, mah, aqua, ekf, roleq = Madgwick(), Mahony(), AQUA(), EKF(), ROLEQ()
+    ekf_enu, roleq_enu = EKF(frame='ENU'), ROLEQ(frame='ENU')        # the frame option selects reference vectors; the gyroscope is a body-frame quantity
 
     # the same step on objects with a history: a few ordinary (non-null) updates first, so that state carried by the object
     # (e.g. Mahony's integrated gyro bias) is non-trivial when the null sample arrives
@@ -312,6 +314,8 @@ def job_dr(ctx, iq, ia):
         ('AQUA.MARG[acc=0,mag=0]', 'AQUA.updateMARG(q*, w, acc=0, mag=0, dt)*', lambda q, w, dt: conj(_arr(aqua.updateMARG(conj(q), w, Z.copy(), Z.copy(), dt=dt)))),
         ('AQUA.MARG[acc=0]', 'AQUA.updateMARG(q*, w, acc=0, mag, dt)*', lambda q, w, dt: conj(_arr(aqua.updateMARG(conj(q), w, Z.copy(), np.array([20.0, -3.0, 40.0]), dt=dt)))),
         ('EKF.f', 'normalised EKF.f(q, w, dt)', n_ekf),
+        ('EKF[ENU].f', "normalised EKF(frame='ENU').f(q, w, dt)", lambda q, w, dt: (lambda r: r / np.sqrt((r * r).sum()) if r.shape == (4,) else r)(_arr(ekf_enu.f(q, w, dt)))),
+        ('ROLEQ[ENU]', "ROLEQ(frame='ENU').attitude_propagation(q, w, dt)", lambda q, w, dt: _arr(roleq_enu.attitude_propagation(q, w, dt))),
         ('ROLEQ', 'ROLEQ.attitude_propagation(q, w, dt)', lambda q, w, dt: _arr(roleq.attitude_propagation(q, w, dt))),
     ]
     DEPTH, NB = 10, 6
